@@ -80,3 +80,20 @@ pub fn protect_environment() {
         libc::setrlimit(libc::RLIMIT_FSIZE, &lim);
     }
 }
+
+/// Fork gate. flock()-style locks belong to the open file description, which a forked child
+/// shares until its exec closes the descriptor: while another thread of this process is inside
+/// `Command::spawn`, a lock file that Tantivy (or memvid) has just released can still look held,
+/// and `Memvid::open` fails spuriously (measured: ~50 % "LockBusy" with a tight spawn loop in a
+/// sibling thread). Code that opens memories in a process that also spawns children holds the
+/// gate for reading; `spawn_gated` takes it for writing around the fork+exec.
+pub static SPAWN_GATE: std::sync::RwLock<()> = std::sync::RwLock::new(());
+
+pub fn memvid_section() -> std::sync::RwLockReadGuard<'static, ()> {
+    SPAWN_GATE.read().unwrap_or_else(|e| e.into_inner())
+}
+
+pub fn spawn_gated(cmd: &mut std::process::Command) -> std::io::Result<std::process::Child> {
+    let _g = SPAWN_GATE.write().unwrap_or_else(|e| e.into_inner());
+    cmd.spawn()
+}
